@@ -314,10 +314,10 @@ Qed.
    The determinant "to rounding accuracy", in the STANDARD MODEL of floating-point arithmetic (the same Gallina
    [determinant] of Model/Solve.v at ARm): the computed determinant is +- the exact product of the diagonal of the
    COMPUTED factor, up to n roundings: relative error gam n = n u / (1 - n u), every size with n u < 1.
+   The inverse: column-wise backward error of its two in-place triangular sweeps (second block below).
    NOT covered: the factorisation (how far the computed factors are from exact factors of the input: growth factor of
-   Gaussian elimination with partial pivoting), the inverse (its two in-place triangular sweeps have the structure of
-   Props/C01.v's triangular solves, column by column, but are not stated), and the standard model itself for IEEE
-   binary64.
+   Gaussian elimination with partial pivoting) -- hence nothing about X A - I or det(A) itself -- and the standard
+   model itself for IEEE binary64.
    ====================================================================================================== *)
 From Coq Require Import Reals Lra Lia.
 From OV Require Import Base.RoundModel Proofs.Matrix Proofs.RoundMatvec Proofs.RoundDet Proofs.RoundFlx Proofs.RoundExamples.
@@ -349,6 +349,74 @@ Example determinant_product_error_nonvacuous :
 Proof.
   split; [exact ux_range|]. split; [exact xmul_ok|]. split; [reflexivity|]. split; [exact ex_size2|].
   split; [exact ex_lu_decomp|exact ex_determinant].
+Qed.
+
+(* ---- the inverse: column-wise backward error of its two triangular sweeps, standard model ----
+   Every column x_j of the computed inverse satisfies (L + dL_j) y_j = P e_j, (U + dU_j) x_j = y_j with the COMPUTED
+   factors L (unit lower), U (upper) of lu_decomp and |dL_j| <= gam n |L|, |dU_j| <= gam n |U| (Proofs/RoundInverse.v:
+   the in-place sweeps have the closed form of forward/back substitution over ANY arithmetic, [inverse_trace]).
+   (Names are fully qualified: this file has mathcomp's matrix/nth/< in scope.) *)
+From OV Require Import Proofs.RoundBacksolve Proofs.RoundInverse Proofs.RoundExamples2.
+
+Theorem inverse_columns_backward_error : forall (u : R), (0 <= u < 1)%R ->
+  forall (fadd fsub fmul fdiv : R -> R -> R),
+  (forall x y : R, exists d : R, (Rabs d <= u)%R /\ fsub x y = ((x - y) * (1 + d))%R) ->
+  (forall x y : R, exists d : R, (Rabs d <= u)%R /\ fmul x y = (x * y * (1 + d))%R) ->
+  (forall x y : R, y <> 0%R -> exists d : R, (Rabs d <= u)%R /\ fdiv x y = (x / y * (1 + d))%R) ->
+  forall (m lu perm inv : Model.Matrix.matrix (ARm fadd fsub fmul fdiv)) (piv : nat),
+  Proofs.Matrix.wf m -> (INR (Model.Matrix.rows m) * u < 1)%R ->
+  Model.Solve.lu_decomp m = Base.Panic.Ok (lu, piv, perm) ->
+  (forall k, Peano.lt k (Model.Matrix.rows m) -> rentry fadd fsub fmul fdiv lu k k <> 0%R) ->
+  Model.Solve.inverse m = Base.Panic.Ok inv ->
+  Proofs.Matrix.wf inv /\ Model.Matrix.rows inv = Model.Matrix.rows m /\ Model.Matrix.cols inv = Model.Matrix.rows m /\
+  forall j, Peano.lt j (Model.Matrix.rows m) ->
+    exists (y : list R) (dL dU : nat -> nat -> R),
+      List.length y = Model.Matrix.rows m /\
+      (forall i k, Peano.lt i (Model.Matrix.rows m) -> Peano.lt k (Model.Matrix.rows m) ->
+         (Rabs (dL i k) <= gam u (Model.Matrix.rows m) * Rabs (tril1 fadd fsub fmul fdiv lu i k))%R) /\
+      (forall i k, Peano.lt i (Model.Matrix.rows m) -> Peano.lt k (Model.Matrix.rows m) ->
+         (Rabs (dU i k) <= gam u (Model.Matrix.rows m) * Rabs (triu fadd fsub fmul fdiv lu i k))%R) /\
+      (forall i, Peano.lt i (Model.Matrix.rows m) ->
+         Rsum (Model.Matrix.rows m) (fun k => ((tril1 fadd fsub fmul fdiv lu i k + dL i k) * List.nth k y 0)%R)
+         = rentry fadd fsub fmul fdiv perm i j) /\
+      (forall i, Peano.lt i (Model.Matrix.rows m) ->
+         Rsum (Model.Matrix.rows m) (fun k => ((triu fadd fsub fmul fdiv lu i k + dU i k) * rentry fadd fsub fmul fdiv inv k j)%R)
+         = List.nth i y 0%R).
+Proof. intros u Hu fadd fsub fmul fdiv Hs Hm Hd m lu perm inv piv. exact (inverse_columns_backward_error_lemma u Hu fadd fsub fmul fdiv Hs Hm Hd m lu perm inv piv). Qed.
+Check inverse_columns_backward_error : forall (u : R), (0 <= u < 1)%R ->
+  forall (fadd fsub fmul fdiv : R -> R -> R),
+  (forall x y : R, exists d : R, (Rabs d <= u)%R /\ fsub x y = ((x - y) * (1 + d))%R) ->
+  (forall x y : R, exists d : R, (Rabs d <= u)%R /\ fmul x y = (x * y * (1 + d))%R) ->
+  (forall x y : R, y <> 0%R -> exists d : R, (Rabs d <= u)%R /\ fdiv x y = (x / y * (1 + d))%R) ->
+  forall (m lu perm inv : Model.Matrix.matrix (ARm fadd fsub fmul fdiv)) (piv : nat),
+  Proofs.Matrix.wf m -> (INR (Model.Matrix.rows m) * u < 1)%R ->
+  Model.Solve.lu_decomp m = Base.Panic.Ok (lu, piv, perm) ->
+  (forall k, Peano.lt k (Model.Matrix.rows m) -> rentry fadd fsub fmul fdiv lu k k <> 0%R) ->
+  Model.Solve.inverse m = Base.Panic.Ok inv ->
+  Proofs.Matrix.wf inv /\ Model.Matrix.rows inv = Model.Matrix.rows m /\ Model.Matrix.cols inv = Model.Matrix.rows m /\
+  forall j, Peano.lt j (Model.Matrix.rows m) ->
+    exists (y : list R) (dL dU : nat -> nat -> R),
+      List.length y = Model.Matrix.rows m /\
+      (forall i k, Peano.lt i (Model.Matrix.rows m) -> Peano.lt k (Model.Matrix.rows m) ->
+         (Rabs (dL i k) <= gam u (Model.Matrix.rows m) * Rabs (tril1 fadd fsub fmul fdiv lu i k))%R) /\
+      (forall i k, Peano.lt i (Model.Matrix.rows m) -> Peano.lt k (Model.Matrix.rows m) ->
+         (Rabs (dU i k) <= gam u (Model.Matrix.rows m) * Rabs (triu fadd fsub fmul fdiv lu i k))%R) /\
+      (forall i, Peano.lt i (Model.Matrix.rows m) ->
+         Rsum (Model.Matrix.rows m) (fun k => ((tril1 fadd fsub fmul fdiv lu i k + dL i k) * List.nth k y 0)%R)
+         = rentry fadd fsub fmul fdiv perm i j) /\
+      (forall i, Peano.lt i (Model.Matrix.rows m) ->
+         Rsum (Model.Matrix.rows m) (fun k => ((triu fadd fsub fmul fdiv lu i k + dU i k) * rentry fadd fsub fmul fdiv inv k j)%R)
+         = List.nth i y 0%R).
+Print Assumptions inverse_columns_backward_error.
+(* [[2,1],[0,3]] in the arithmetic that rounds every operation to 53 bits: the factors have a nonzero diagonal, inverse answers *)
+Example inverse_columns_backward_error_nonvacuous :
+  (0 <= ux < 1)%R /\ Proofs.Matrix.wf ex_m2 /\ (INR (Model.Matrix.rows ex_m2) * ux < 1)%R /\
+  Model.Solve.lu_decomp ex_m2 = Base.Panic.Ok (ex_lu2, 0%nat, ex_id2) /\
+  (forall k, Peano.lt k (Model.Matrix.rows ex_m2) -> rentry xadd xsub xmul xdiv ex_lu2 k k <> 0%R) /\
+  exists inv, Model.Solve.inverse ex_m2 = Base.Panic.Ok inv.
+Proof.
+  split; [exact ux_range|]. split; [reflexivity|]. split; [exact ex_size2|]. split; [exact ex_lu_decomp|].
+  split; [exact ex_lu2_diag|exact ex_inverse].
 Qed.
 
 (* ---------- Props/pending/C03_round.v.txt ---------- *)
